@@ -52,6 +52,10 @@ pub struct Profile {
     pub max_batch: usize,
     pub big_values_permille: u64,
     pub degenerate_permille: u64,
+    /// per-mille chance that an ERG mint does enough work to raise the recorded DOSC speed (costly: up to 2^21 hashes)
+    pub fast_mint_permille: u64,
+    /// per-mille chance of a payment that fans out into ~250 coins at one address (counts beyond one-byte encodings)
+    pub crowd_permille: u64,
 }
 
 impl Default for Profile {
@@ -72,6 +76,8 @@ impl Default for Profile {
             max_batch: 8,
             big_values_permille: 60,
             degenerate_permille: 0,
+            fast_mint_permille: 0,
+            crowd_permille: 0,
         }
     }
 }
@@ -799,6 +805,11 @@ impl World {
         };
         v.push(("long-same-order".to_string(), long(key.left(), key.right())));
         v.push(("long-reversed".to_string(), long(key.right(), key.left())));
+        // a name with the same denomination on both sides (parses, names no pool)
+        let x = if key.right() != Denom::Mel { key.right() } else { key.left() };
+        if x != Denom::Mel {
+            v.push(("long-equal-sides".to_string(), long(x, x)));
+        }
         v
     }
 
@@ -916,16 +927,28 @@ impl World {
             let o = self.rng.usize(self.owners.len());
             self.owners[o].addr_new
         };
-        let (spn, data) = self.pool_data(key);
+        let (mut spn, mut data) = self.pool_data(key);
         let kind = if self.rng.chance(self.profile.wrong_kind_permille, 1000) {
             *self.rng.pick(&[TxKind::Normal, TxKind::Swap, TxKind::LiqWithdraw])
         } else {
             TxKind::LiqDeposit
         };
-        let payload = vec![
+        let mut payload = vec![
             CoinData { covhash, value: CoinValue(lv), denom: key.left(), additional_data: Bytes::new() },
             CoinData { covhash, value: CoinValue(rv), denom: key.right(), additional_data: Bytes::new() },
         ];
+        if key.right() != Denom::Mel && rv >= 2 && self.rng.chance(self.profile.odd_spelling_permille, 3000) {
+            // both outputs in one denomination under a name whose two sides are that denomination
+            let x = key.right();
+            let mut b = vec![0u8; 32];
+            b.extend_from_slice(&stdcode::serialize(&(x, x)).unwrap());
+            data = b;
+            spn = "long-equal-sides,both-outputs-that-denomination".to_string();
+            payload = vec![
+                CoinData { covhash, value: CoinValue(rv - rv / 2), denom: x, additional_data: Bytes::new() },
+                CoinData { covhash, value: CoinValue(rv / 2), denom: x, additional_data: Bytes::new() },
+            ];
+        }
         let tx = self.complete(kind, inputs, payload, data, 0)?;
         if kind == TxKind::LiqDeposit && !self.my_pools.contains(&key) && !self.known_pools().contains(&key) {
             self.my_pools.push(key);
@@ -1062,7 +1085,16 @@ impl World {
         let hdr = if cdh.height.0 == tip_h { tip.header() } else { tip.history(cdh.height)? };
         let puzzle = tmelcrypt::hash_keyed(hdr.hash(), &stdcode::serialize(&id).unwrap());
         let tip910 = self.rng.chance(1, 3);
-        let d = 1 + self.rng.below(if tip910 { 4 } else { 7 }) as u32;
+        let mut d = 1 + self.rng.below(if tip910 { 4 } else { 7 }) as u32;
+        if self.profile.fast_mint_permille > 0 && self.rng.below(1000) < self.profile.fast_mint_permille {
+            // the least difficulty whose speed exceeds the recorded one (so the header's dosc_speed moves)
+            let prev = tip.header().dosc_speed;
+            let age = (height - cdh.height.0) as u128;
+            let need = (0..=(if tip910 { 15u32 } else { 21 })).find(|d| ((1u128 << d) * if tip910 { 100 } else { 1 }) / age > prev);
+            if let Some(n) = need {
+                d = n.max(1);
+            }
+        }
         let proof = if tip910 { Proof::generate(&puzzle, d as usize, T9) } else { Proof::generate(&puzzle, d as usize, L) };
         let age = height - cdh.height.0;
         let work: u128 = (1u128 << d) * if tip910 { 100 } else { 1 };
@@ -1307,9 +1339,33 @@ impl World {
         }
     }
 
+    /// A payment fanning out into 240-253 equal coins at one address (the first owner's), so that the number of
+    /// coins under one covenant hash passes 250/251/252 and, through later spends, comes back down.
+    pub fn gen_crowd(&mut self) -> Option<(Transaction, String)> {
+        let inputs = self.pick_inputs(&[Denom::Mel], 0);
+        let avail: u128 = inputs.iter().filter(|(_, c)| c.coin_data.denom == Denom::Mel).map(|(_, c)| c.coin_data.value.0).sum();
+        let k = 240 + self.rng.usize(14);
+        if avail < 4 * k as u128 {
+            return None;
+        }
+        let each = (avail / 2 / k as u128).min(MAX_COINVAL).max(1);
+        let covhash = self.owners[0].addr_new;
+        let payload: Vec<CoinData> = (0..k).map(|_| CoinData { covhash, value: CoinValue(each), denom: Denom::Mel, additional_data: Bytes::new() }).collect();
+        let tx = self.complete(TxKind::Normal, inputs, payload, vec![], 0)?;
+        if tx.outputs.len() > 255 {
+            return None;
+        }
+        Some((tx, format!("crowd: {} coins to one address", k)))
+    }
+
     /// One generated transaction with a label saying what it is.
     pub fn gen_any(&mut self) -> Option<(Transaction, String)> {
         let p = self.profile.clone();
+        if p.crowd_permille > 0 && self.rng.chance(p.crowd_permille, 1000) {
+            if let Some(x) = self.gen_crowd() {
+                return Some(x);
+            }
+        }
         if p.degenerate_permille > 0 && self.rng.chance(p.degenerate_permille, 1000) {
             if let Some(x) = self.gen_degenerate() {
                 return Some(x);
